@@ -466,13 +466,28 @@ class TransactionManager(Elaboratable):
             self.methods.append(method)
 
         # step 5: construct merged transactions
+        def enable_call(group: frozenset[TBody], transaction: TBody) -> Value:
+            nontrivial_deps = ready_dependencies[transaction] & conditionally_called
+            return Cat(runs_in_group(group, dep) for dep in nontrivial_deps).all()
+
+        def runs_in_group(group: frozenset[TBody], dep: Body) -> Value:
+            # Tells if `dep` runs, assuming that the transaction merged from `group` runs. The run signal of `dep`
+            # is avoided if possible, because it depends combinationally on the merged transaction being runnable.
+            if dep in group:
+                return enable_call(group, TBody(dep))
+            enables = [
+                call.enable
+                for transaction in group
+                for call in method_map.info_by_call.get((transaction, MBody(dep)), [])
+            ]
+            return Cat(enables).any() if enables else dep.run
+
         with DependencyContext(DependencyManager()):
             for group in final_simultaneous:
                 name = "_".join([t.name for t in group])
                 with Transaction(name=name).body(m):
                     for transaction in group:
-                        nontrivial_deps = ready_dependencies[transaction] & conditionally_called
-                        methods[transaction](m, enable_call=Cat(dep.run for dep in nontrivial_deps).all())
+                        methods[transaction](m, enable_call=enable_call(group, transaction))
             self.transactions += DependencyContext.get().get_dependency(TransactionsKey())
 
         return m
